@@ -16,14 +16,14 @@ Import ListNotations.
 Local Open Scope N_scope.
 
 (* The full statement: for every configuration, by every route, the server survives and shows exactly what the
-   intent allows.  It is FALSE on the code as it is (five refutations below); the guarded theorems say exactly where
+   intent allows.  It is FALSE on the code as it is (six refutations below); the guarded theorems say exactly where
    it holds. *)
 Definition C17_full : Prop :=
   forall (re_ok : path -> bool) (re_match : path -> path -> bool) (raw : list path -> list diag)
-         root files j c cs,
+         root files j c local_run cs,
     client_wf c = true -> forallb client_wf cs = true ->
     forallb type_ok (raw files) = true ->
-    exists s, session false re_ok j c cs = Ok s
+    exists s, session false re_ok j c local_run cs = Ok s
       /\ shown re_ok re_match raw (s_g s) root files = spec_shown re_ok re_match raw (session_intent j c cs) root files.
 
 (* ---- 1. the positional flag lists (over the GENERATED lists: re-checked against the code on every run) ---- *)
@@ -42,9 +42,9 @@ Print Assumptions C17_flag_type_bijection.
    everything-enabled run passes the guard (it is excluded anyway, or neither the five-flag gate nor a coupled type
    nor the white list stands in its way), the client sees exactly the filtered everything-enabled run *)
 Theorem C17_filter_law :
-  forall fixed re_ok re_match raw root files j c cs s,
+  forall fixed re_ok re_match raw root files j c local_run cs s,
     json_wf j = true -> client_wf c = true -> forallb client_wf cs = true ->
-    session fixed re_ok j c cs = Ok s ->
+    session fixed re_ok j c local_run cs = Ok s ->
     forallb (diag_guard re_ok re_match (s_g s) (session_intent j c cs) root)
             (raw (filter (is_handled re_ok re_match (s_g s)) files)) = true ->
     shown re_ok re_match raw (s_g s) root files
@@ -55,9 +55,9 @@ Print Assumptions C17_filter_law.
 (* the form of DESIGN.md: special_gate_ok cfg -> shown cfg = filter (not excluded) (all-on run), for workspaces whose
    diagnostics are of the plain types (not 17/24, not white-listed 22..28, no import reference) *)
 Theorem C17_filter_law_plain :
-  forall fixed re_ok re_match raw root files j c cs s,
+  forall fixed re_ok re_match raw root files j c local_run cs s,
     json_wf j = true -> client_wf c = true -> forallb client_wf cs = true ->
-    session fixed re_ok j c cs = Ok s ->
+    session fixed re_ok j c local_run cs = Ok s ->
     special_gate_ok (s_g s) = true ->
     forallb plain_diag (raw (filter (is_handled re_ok re_match (s_g s)) files)) = true ->
     shown re_ok re_match raw (s_g s) root files
@@ -67,18 +67,18 @@ Print Assumptions C17_filter_law_plain.
 
 (* one diagnostic at a time, with the exact residue: visible = allowed by the intent /\ gate /\ prerequisites /\ white list *)
 Theorem C17_visible_exact :
-  forall fixed re_ok re_match j c cs s,
+  forall fixed re_ok re_match j c local_run cs s,
     json_wf j = true -> client_wf c = true -> forallb client_wf cs = true ->
-    session fixed re_ok j c cs = Ok s ->
+    session fixed re_ok j c local_run cs = Ok s ->
     realises re_ok re_match (s_g s) (session_intent j c cs).
 Proof. exact session_realises. Qed.
 Print Assumptions C17_visible_exact.
 
 (* without any guard: the code never SHOWS a diagnostic the configuration excludes (it only hides too much) *)
 Theorem C17_never_shows_excluded :
-  forall fixed re_ok re_match root j c cs s d,
+  forall fixed re_ok re_match root j c local_run cs s d,
     json_wf j = true -> client_wf c = true -> forallb client_wf cs = true ->
-    session fixed re_ok j c cs = Ok s -> type_ok d = true ->
+    session fixed re_ok j c local_run cs = Ok s -> type_ok d = true ->
     visible re_ok re_match (s_g s) root d = true ->
     spec_excluded re_ok re_match (session_intent j c cs) root d = false.
 Proof. exact never_shows_excluded. Qed.
@@ -87,11 +87,11 @@ Print Assumptions C17_never_shows_excluded.
 (* ---- 3. the three routes ---- *)
 
 Theorem C17_same_by_all_routes :
-  forall fixed re_ok re_match c c0 csync cmid cany cs_any s1 s2 s3,
+  forall fixed re_ok re_match c c0 csync cmid cany cs_any l1 l2 l3 s1 s2 s3,
     client_wf c = true -> client_wf c0 = true -> client_wf csync = true -> forallb client_wf cmid = true ->
-    session fixed re_ok None c [] = Ok s1 ->                              (* initializationOptions *)
-    session fixed re_ok None c0 (csync :: cmid ++ [c]) = Ok s2 ->         (* later settings change, any history *)
-    session fixed re_ok (Some (to_json c)) cany cs_any = Ok s3 ->         (* luahelper.json *)
+    session fixed re_ok None c l1 [] = Ok s1 ->                           (* initializationOptions *)
+    session fixed re_ok None c0 l2 (csync :: cmid ++ [c]) = Ok s2 ->      (* later settings change, any history *)
+    session fixed re_ok (Some (to_json c)) cany l3 cs_any = Ok s3 ->      (* luahelper.json *)
     obs_eq re_ok re_match (s_g s1) (s_g s2) /\ obs_eq re_ok re_match (s_g s1) (s_g s3).
 Proof. exact same_by_all_routes. Qed.
 Print Assumptions C17_same_by_all_routes.
@@ -103,8 +103,8 @@ Proof. exact obs_eq_shown. Qed.
 Print Assumptions C17_same_routes_same_diagnostics.
 
 Theorem C17_json_ignores_client :
-  forall fixed re_ok jc c c' cs cs' s s',
-    session fixed re_ok (Some jc) c cs = Ok s -> session fixed re_ok (Some jc) c' cs' = Ok s' -> s_g s = s_g s'.
+  forall fixed re_ok jc c c' l l' cs cs' s s',
+    session fixed re_ok (Some jc) c l cs = Ok s -> session fixed re_ok (Some jc) c' l' cs' = Ok s' -> s_g s = s_g s'.
 Proof. exact json_ignores_client. Qed.
 Print Assumptions C17_json_ignores_client.
 
@@ -112,36 +112,47 @@ Print Assumptions C17_json_ignores_client.
 
 (* the code as it is dies iff some IgnoreFileOrDirError pattern does not compile *)
 Theorem C17_init_faults_iff :
-  forall re_ok c, init false re_ok None c = Fault Regexp <-> forallb re_ok (c_ignore_err c) = false.
+  forall re_ok c local_run,
+    init false re_ok None c local_run = Fault Regexp <-> forallb re_ok (c_ignore_err c) = false.
 Proof. exact init_faults_iff. Qed.
 Print Assumptions C17_init_faults_iff.
 
 Theorem C17_no_fault_if_patterns_ok :
-  forall re_ok fixed j c cs,
-    session_patterns_ok re_ok fixed j c cs = true -> exists s, session fixed re_ok j c cs = Ok s.
+  forall re_ok fixed j c local_run cs,
+    session_patterns_ok re_ok fixed j c cs = true -> local_ok j c local_run = true ->
+    exists s, session fixed re_ok j c local_run cs = Ok s.
 Proof. exact session_no_fault. Qed.
 Print Assumptions C17_no_fault_if_patterns_ok.
 
-(* the repaired variant (regexp.Compile; a malformed pattern counts as literal text only) never faults, and the
-   filter law above is stated for both variants *)
+(* the repaired variant (regexp.Compile; a malformed pattern counts as literal text only) never faults - unless the
+   client says LocalRun with the master switch off (next theorem); the filter law above is stated for both variants *)
 Theorem C17_fixed_never_faults :
-  forall re_ok j c cs, exists s, session true re_ok j c cs = Ok s.
+  forall re_ok j c local_run cs, local_ok j c local_run = true -> exists s, session true re_ok j c local_run cs = Ok s.
 Proof. exact fixed_never_faults. Qed.
 Print Assumptions C17_fixed_never_faults.
+
+(* initializationOptions {LocalRun: true, AllEnable: false}: handleNotJSONCheckFlag returns before it allocates
+   IgnoreVarMap, InsertIngoreSystemModule then writes into the nil map: initialize dies *)
+Theorem C17_local_master_off_faults :
+  forall re_ok fixed c fl,
+    c_flags c = false :: fl -> compile_all fixed re_ok (c_ignore_err c) = true ->
+    init fixed re_ok None c true = Fault NilDeref.
+Proof. exact local_master_off_faults. Qed.
+Print Assumptions C17_local_master_off_faults.
 
 (* ---- 5. refutations of C17_full on the faithful model (each replayed on the real server: known_findings/C17.json) ---- *)
 
 (* client option IgnoreFileOrDirError ["("]: initialize dies; the repaired variant survives *)
 Theorem C17_bad_regex_refuted :
   client_wf w_bad_regex = true
-  /\ session false re_no_paren None w_bad_regex [] = Fault Regexp
-  /\ is_ok (session true re_no_paren None w_bad_regex []) = true.
+  /\ session false re_no_paren None w_bad_regex false [] = Fault Regexp
+  /\ is_ok (session true re_no_paren None w_bad_regex false []) = true.
 Proof. vm_compute. repeat split. Qed.
 Print Assumptions C17_bad_regex_refuted.
 
 (* switches 2, 3, 10, 11, 12 off and 9 on: a type-9 diagnostic, not excluded by the intent, is not shown *)
 Theorem C17_special_gate_refuted :
-  match session false re_all None w_gate [] with
+  match session false re_all None w_gate false [] with
   | Ok s =>
       client_wf w_gate = true /\ nth 9 (c_flags w_gate) false = true
       /\ spec_excluded re_all re_none (session_intent None w_gate []) [] (mk_diag a_lua 9) = false
@@ -154,7 +165,7 @@ Print Assumptions C17_special_gate_refuted.
 
 (* only switch 4 off: the type-17 diagnostic disappears as well *)
 Theorem C17_coupled_type_refuted :
-  match session false re_all None w_coupled [] with
+  match session false re_all None w_coupled false [] with
   | Ok s =>
       nth 17 (c_flags w_coupled) false = true
       /\ spec_excluded re_all re_none (session_intent None w_coupled []) [] (mk_diag a_lua 17) = false
@@ -167,7 +178,7 @@ Print Assumptions C17_coupled_type_refuted.
 
 (* every client switch on: a type-22 diagnostic is still not shown (white list only fed by luahelper.json) *)
 Theorem C17_dead_flag_refuted :
-  match session false re_all None w_all_on [] with
+  match session false re_all None w_all_on false [] with
   | Ok s =>
       nth 22 (c_flags w_all_on) false = true
       /\ spec_excluded re_all re_none (session_intent None w_all_on []) [] (mk_diag a_lua 22) = false
@@ -180,7 +191,7 @@ Print Assumptions C17_dead_flag_refuted.
 
 (* two IgnoreFileErrTypes entries for the same file: the first one is lost, its type is shown *)
 Theorem C17_dup_file_rule_refuted :
-  match session false re_all (Some w_dup_rule) w_all_on [] with
+  match session false re_all (Some w_dup_rule) w_all_on false [] with
   | Ok s =>
       json_wf (Some w_dup_rule) = false
       /\ spec_excluded re_all re_none (session_intent (Some w_dup_rule) w_all_on []) [] (mk_diag a_lua 4) = true
@@ -190,10 +201,19 @@ Theorem C17_dup_file_rule_refuted :
 Proof. vm_compute. repeat split. Qed.
 Print Assumptions C17_dup_file_rule_refuted.
 
+(* the master switch "removes all" - with LocalRun it removes the server (both variants) *)
+Theorem C17_master_off_local_refuted :
+  client_wf w_master_off = true
+  /\ session false re_all None w_master_off true [] = Fault NilDeref
+  /\ session true re_all None w_master_off true [] = Fault NilDeref
+  /\ is_ok (session false re_all None w_master_off false []) = true.
+Proof. vm_compute. repeat split. Qed.
+Print Assumptions C17_master_off_local_refuted.
+
 (* ---- non-vacuity: a configuration with switches off, a silenced folder and an ignored file meets the guard of
    C17_filter_law on diagnostics of six kinds, and the law then hides three of them and shows three ---- *)
 Example C17_guard_inhabited :
-  match session false re_all None w_example [] with
+  match session false re_all None w_example false [] with
   | Ok s =>
       client_wf w_example = true
       /\ forallb (diag_guard re_all re_none (s_g s) (session_intent None w_example []) []) w_example_diags = true
